@@ -234,6 +234,9 @@ func c16Drivers() []*icCfg {
 		{Name: "V4-load-vs-set", O: big, Loading: true, LoadCost: 1, Scripts: [][]icOp{{L(1)}, {S2(1)}, {G(1), D(1)}}, Post: post},
 		// a cost-changing Set of key 1, the entry's expiry and a fresh Set of the same key, in every order of their phases
 		// - with the entry pool on (V5b: the pooled object may come back for the same key) and in the default configuration (V5c)
+		// entry pool on: eviction pressure with re-Sets of evicted keys, and delete / re-set
+		{Name: "V2p-pool-pressure", O: hOpts{MaxSize: 2, ChanSize: 4, BufSize: 2, Pool: true}, Fresh: true, Pre: []icOp{S(1)}, Scripts: [][]icOp{{S2(2), S(1)}, {S(3), S2(1)}, {G(3), S(2)}}, Post: post},
+		{Name: "V6p-pool-delete-reset", O: hOpts{MaxSize: 2, ChanSize: 4, BufSize: 2, Pool: true}, Fresh: true, Pre: []icOp{S(1)}, Scripts: [][]icOp{{D(1), S2(1)}, {S(2), S(3)}, {S(1)}}, Post: post},
 		{Name: "V5b-pool-same-key-reuse-expiry", O: hOpts{MaxSize: 4, ChanSize: 4, BufSize: 2, Pool: true}, Fresh: true, Pre: []icOp{{Kind: "set", K: 1, Cost: 1, TTL: sec}},
 			Scripts: [][]icOp{{S2(1)}, {{Kind: "tick", Arg: 2 * sec}}, {S(1)}}, Post: post},
 		{Name: "V5c-same-key-reset-after-expiry", O: hOpts{MaxSize: 4, ChanSize: 4, BufSize: 2}, Pre: []icOp{{Kind: "set", K: 1, Cost: 1, TTL: sec}},
